@@ -171,7 +171,7 @@ func (fe *FnExec) freshVal(t types.Type, hint string) Val {
 		l := fe.fresh(hint+".len", "Int")
 		c := fe.fresh(hint+".cap", "Int")
 		fe.assume(tAnd(sx("<=", "0", l), sx("<=", l, c), sx("<=", c, maxLen), sx("<=", "0", r), tImp(tEq(r, "0"), tEq(c, "0"))), "slice shape")
-		return SliceV{Ref: r, Len: l, Cap: c}
+		return SliceV{Ref: r, Len: l, Cap: c, ElemT: u.Elem()}
 	case *types.Struct:
 		sv := StructV{T: t}
 		for i := 0; i < u.NumFields(); i++ {
@@ -191,7 +191,17 @@ func (fe *FnExec) freshVal(t types.Type, hint string) Val {
 		return tv
 	case *types.Array:
 		return ArrayV{Ref: fe.fresh(hint, "Int"), N: u.Len()}
-	case *types.Interface, *types.Map, *types.Chan, *types.Signature:
+	case *types.Interface:
+		r := fe.fresh(hint, "Int")
+		fe.assume(sx("<=", "0", r), "ref")
+		if _, named := t.(*types.Named); named && u.NumMethods() > 0 {
+			// a non-nil value of static interface type S has a dynamic type that implements S
+			pred := "impl." + typeName(t)
+			fe.eng.noteIface(pred, t)
+			fe.assume(tOr(tEq(r, "0"), sx(sym(pred), sx("dyn", r))), "static interface type "+typeName(t))
+		}
+		return RefV{r}
+	case *types.Map, *types.Chan, *types.Signature:
 		r := fe.fresh(hint, "Int")
 		fe.assume(sx("<=", "0", r), "ref")
 		return RefV{r}
@@ -372,7 +382,7 @@ func (fe *FnExec) mergeVal(vals []Val, pcs []Term, hint string) Val {
 		ls, ok2 := collect(func(v Val) (Term, bool) { x, ok := v.(SliceV); return x.Len, ok })
 		cs, ok3 := collect(func(v Val) (Term, bool) { x, ok := v.(SliceV); return x.Cap, ok })
 		if ok1 && ok2 && ok3 {
-			return SliceV{Ref: mergeT(rs, "Int"), Len: mergeT(ls, "Int"), Cap: mergeT(cs, "Int")}
+			return SliceV{Ref: mergeT(rs, "Int"), Len: mergeT(ls, "Int"), Cap: mergeT(cs, "Int"), ElemT: v0.ElemT}
 		}
 	case StructV:
 		okAll := true
@@ -493,7 +503,7 @@ func (fe *FnExec) loadHeap(st *State, prefix string, base Term, t types.Type) Va
 		l := sx("select", fe.heapGet(st, prefix+".len", "Int"), base)
 		c := sx("select", fe.heapGet(st, prefix+".cap", "Int"), base)
 		fe.assume(tAnd(sx("<=", "0", l), sx("<=", l, c), sx("<=", c, maxLen)), "slice shape (heap)")
-		return SliceV{Ref: r, Len: l, Cap: c}
+		return SliceV{Ref: r, Len: l, Cap: c, ElemT: u.Elem()}
 	case *types.Basic:
 		sel := sx("select", fe.heapGet(st, prefix, sortOfType(t)), base)
 		switch {
@@ -1096,9 +1106,8 @@ func (fe *FnExec) enterLoop(fr *frame, li *loopInfo, st *State) {
 	if len(st.defers) > 0 {
 		// defers registered inside loops are outside the subset
 	}
-	npc := fe.fresh(fmt.Sprintf("pc.loop%d", li.ord), "Bool")
-	fe.assume(tImp(npc, "true"), "loop head reachability is arbitrary")
-	st.pc = npc
+	// The path condition of the entry edges stays: it is a fact about values that existed when the loop was
+	// entered, and every later iteration has passed through that entry as well.
 	if li.spec != nil {
 		for _, inv := range li.spec.Invs {
 			ctx := fe.ctxFor(fr, st)
@@ -1139,6 +1148,10 @@ func (fe *FnExec) backEdge(fr *frame, li *loopInfo, st *State) {
 			ctx := fe.ctxFor(fr, st)
 			g := ctx.evalBool(inv.X)
 			fe.oblige(fr, fe.loopName(li)+".inv:"+inv.Label+":keep", inv.Props, st.pc, g, li.head.Instrs[0].Pos(), inv.Src)
+		}
+		for _, sp := range li.spec.Steps {
+			ctx := fe.ctxFor(fr, st)
+			fe.oblige(fr, fe.loopName(li)+".step:"+sp.Label, sp.Props, st.pc, ctx.evalBool(sp.X), li.head.Instrs[0].Pos(), sp.Src)
 		}
 		if li.spec.Decreases != nil {
 			ctx := fe.ctxFor(fr, st)
